@@ -8,7 +8,7 @@ import numpy as np
 
 from harness import common
 from harness.framework import Violation
-from harness.seqprop import SeqProp, slots_of
+from harness.seqprop import indep_fall, SeqProp, slots_of
 from pulser import Pulse
 from pulser.channels.eom import RydbergBeam
 
@@ -135,7 +135,7 @@ class C15(SeqProp):
                     # after the previous pulse has ramped down
                     for q in reversed(before):
                         if isinstance(q.type, Pulse):
-                            end = q.tf + q.type.fall_time(ch, in_eom_mode=False)
+                            end = q.tf + indep_fall(q.type, ch, False)
                             if b.ti < end:
                                 bad("eom-buffer-before-ramp-down", f"channel {name}: buffer starts at {b.ti}, previous pulse ramps down until {end}")
                             break
@@ -155,7 +155,7 @@ class C15(SeqProp):
             else:
                 for q in reversed(before):
                     if isinstance(q.type, Pulse):
-                        end = q.tf + q.type.fall_time(ch, in_eom_mode=True)
+                        end = q.tf + indep_fall(q.type, ch, True)
                         if cur[name][-1].tf < end:
                             bad("eom-disable-before-ramp-down" + (":eom-slower-than-channel" if eom.rise_time > ch.rise_time else ""), f"channel {name}: ends at {cur[name][-1].tf}, last EOM pulse ramps down until {end}")
                         break
